@@ -333,6 +333,16 @@ func checkPlan(w *out.W, d dplan) {
 				continue
 			}
 			upSec, downSec = b[len(um):k+1], b[k+len(dm):]
+			if layoutMode {
+				// the model's reader takes the text behind the *first* marker (DownLayoutModel.after_marker)
+				k1 := strings.Index(b, dm)
+				st, err := scanTexts(b[k1+len(dm):])
+				if lineClosedPlan(p, revs) && err == nil {
+					obs = append(obs, stmtsObs(f.name, st))
+				} else {
+					obs = append(obs, f.name+".down open")
+				}
+			}
 		case "liquibase":
 			cmds, rb, nw, ok := liquibaseRead(string(files[0].Bytes()))
 			if !ok {
@@ -343,20 +353,27 @@ func checkPlan(w *out.W, d dplan) {
 				now = nw
 			}
 			if !eqStrs(cmds, up) {
-				w.Violation(d.id, "upfile-liquibase", fmt.Sprintf("changeset statements %q, Cmds %q | %s", cmds, up, d.desc))
+				w.Violation(d.id, "upfile-liquibase", fmt.Sprintf("changeset statements %s, Cmds %s | %s", trunc(fmt.Sprintf("%q", cmds), 2000), trunc(fmt.Sprintf("%q", up), 2000), d.desc))
 			}
 			var got []string
 			for i := len(rb) - 1; i >= 0; i-- {
 				got = append(got, rb[i]...)
 			}
 			if !eqStrs(got, down) {
-				w.Violation(d.id, "downfile-liquibase", fmt.Sprintf("--rollback statements (changesets last to first) %q, expected %q | %s", got, down, d.desc))
+				w.Violation(d.id, "downfile-liquibase", fmt.Sprintf("--rollback statements (changesets last to first) %s, expected %s | %s", trunc(fmt.Sprintf("%q", got), 2000), trunc(fmt.Sprintf("%q", down), 2000), d.desc))
+			}
+			if layoutMode {
+				if lqClosedPlan(p, revs) {
+					obs = append(obs, stmtsObs("liquibase", got))
+				} else {
+					obs = append(obs, "liquibase.down open")
+				}
 			}
 			continue
 		}
 		gotUp, err := scanTexts(upSec)
 		if err != nil || !eqStrs(gotUp, up) {
-			w.Violation(d.id, "upfile-"+f.name, fmt.Sprintf("up section scans to %q (err %v), Cmds %q | %s", gotUp, err, up, d.desc))
+			w.Violation(d.id, "upfile-"+f.name, fmt.Sprintf("up section scans to %s (err %v), Cmds %s | %s", trunc(fmt.Sprintf("%q", gotUp), 2000), err, trunc(fmt.Sprintf("%q", up), 2000), d.desc))
 		}
 		if hasDown {
 			gotDown, err := scanTexts(downSec)
@@ -368,8 +385,15 @@ func checkPlan(w *out.W, d dplan) {
 					obs = append(obs, "golang-migrate.scan open")
 				}
 			}
+			if layoutMode && (f.name == "golang-migrate" || f.name == "flyway") {
+				if lineClosedPlan(p, revs) && err == nil {
+					obs = append(obs, stmtsObs(f.name, gotDown))
+				} else {
+					obs = append(obs, f.name+".down open")
+				}
+			}
 			if err != nil || !eqStrs(gotDown, down) {
-				w.Violation(d.id, "downfile-"+f.name, fmt.Sprintf("down section scans to %q (err %v), expected flat_map ReverseStmts (rev Changes) = %q | %s", gotDown, err, down, d.desc))
+				w.Violation(d.id, "downfile-"+f.name, fmt.Sprintf("down section scans to %s (err %v), expected flat_map ReverseStmts (rev Changes) = %s | %s", trunc(fmt.Sprintf("%q", gotDown), 2000), err, trunc(fmt.Sprintf("%q", down), 2000), d.desc))
 			}
 		}
 	}
